@@ -547,6 +547,10 @@ func (f *Frame) pureApp(name string, sig *types.Signature, args []T) T {
 	f.enc.declSortOf(rs)
 	fn := f.enc.declFun("pure_"+name, sorts, rs)
 	f.enc.assumed["pure "+name+": treated as a side-effect-free function of its arguments"] = true
+	if i := strings.LastIndex(name, "."); i >= 0 {
+		// autoaxioms triggered by a pure method call x.M(...)
+		(&Translator{f: f}).installAutoLemmas(name[i:], fn)
+	}
 	return f.enc.cachedApp(App(rs, fn, args...))
 }
 
@@ -561,6 +565,19 @@ func (f *Frame) doInvoke(v ssa.Value, c *ssa.CallCommon, pos token.Pos) {
 	sig := c.Method.Type().(*types.Signature)
 	con := f.p.ifaceCons[key]
 	if con != nil && con.Pure {
+		if len(con.Requires) > 0 {
+			// a pure method may still have a precondition (reflect.Type.In panics on an index out of range)
+			env := map[string]tv{"recv": {recv, c.Value.Type()}, "self": {recv, c.Value.Type()}}
+			for i := 0; i < sig.Params().Len(); i++ {
+				env[sig.Params().At(i).Name()] = tv{args[1+i], sig.Params().At(i).Type()}
+			}
+			for k, r := range con.Requires {
+				tr := &Translator{f: f, env: env, cur: f.st, old: f.st}
+				if o := f.oblige("pre", fmt.Sprintf("%s.%s", key, clauseName(r, k)), pos, tr.boolExpr(r.Expr)); o != nil {
+					o.Props = r.Props
+				}
+			}
+		}
 		f.setResults(v, []T{f.pureApp(key, sig, args)})
 		return
 	}
